@@ -38,6 +38,18 @@ TABLE = {
  "C17-b": ("C17", "actions.py: set of distinct raw mode tokens instead of per-track lower-cased tests", "all-audio sheet whose TRACK lines spell AUDIO in different letter case"),
  "C18-b": ("C18", "akai_string.py char_ascii_to_akai: str input rstrip()ped", "a text name ending in a blank (the bytes form is unaffected)"),
  "C19-b": ("C19", "filters/common.py: 'digital silence' fast path in the ChickenSys IIR presets checks the input history only", "an all-zero block directly after a zero sample while the feedback tail is still ringing"),
+ "C03-c": ("C03", "cuesheet.py: sector position computed through float seconds, int(75 * total_seconds)", "index times whose frame value hits a float rounding case (about 5% of MM:SS:FF, e.g. 00:00:55)"),
+ "C04-c": ("C04", "generalized/wav.py export_wav: file opened without truncation (os.open without O_TRUNC)", "re-export into a directory that already holds a longer file of the same name"),
+ "C05-c": ("C05", "rewind moved from to_generalized into export_wav, which rewinds only data_streams[0]", "an AKAI L/R pair exported a second time from the same opened image: channel 1 empty"),
+ "C06-c": ("C06", "structural.py sanitize_names_general: generated-name set reset per group (filed against C06)", "two duplicate groups whose counted names coincide, at a level without pairing (CDDA titles)"),
+ "C08-c": ("C08", "util/stream.py: true_size initialised to 0 and no longer reset in seek()", "a seek on a reversed view after a read (stale size enters the address translation)"),
+ "C09-c": ("C09", "actions.py: cue probe only when the file name ends in lower-case '.cue'", "an image delivered through a cue sheet named IMAGE.CUE / disc.cue.txt"),
+ "C10-c": ("C10", "structural.py parse_path: outer strip of the path removed", "a trailing separator followed by blanks ('name/ ')"),
+ "C12-c": ("C12", "transcoder.py: output swap 'cancelled' against the input swap whenever any input needs swapping", "big-endian host (patched), >= 2 streams with different byte orders, width > 1"),
+ "C15-c": ("C15", "roland fat.py: data stream sized with DATA_AREA_OFFSET instead of DATA_FAT_OFFSET", "Roland image whose sample data lies within the last two clusters of the file"),
+ "C17-c": ("C17", "cuesheet.py get_nonempty_entry: blank test on rstrip('\\r\\n'), returns strip()", "a whitespace-only line inside a track or between FILE and TRACK"),
+ "C19-c": ("C19", "filters/common.py: FIR presets override reset_state and re-prime with N-1 zeros instead of m1", "a FIR preset with a non-zero delay offset reused after reset_state() or a flush"),
+ "C20-c": ("C20", "akai/sample.py: active loops kept as a one-pass filter() iterator on the cached sample", "a second listing of the same sample on the same opened image"),
  "C04-a": ("C04", "transcoder.py PassthroughTranscoder: ragged tail trimmed to a whole sample instead of a whole frame", "CDDA last track whose window ends 2-3 bytes past a stereo-frame boundary"),
  "C06-a": ("C06", "structural.py combine_stereo_routine: taken names hoisted out of the loop", "two complete L/R pairs with one stem and different separators in one directory"),
  "C09-a": ("C09", "alcohol/mdx.py: MDX payload size floored to a multiple of 2048", "MDX container, image size not a multiple of 2048, live sample data in the last partial sector"),
@@ -70,6 +82,14 @@ HISTORY = {
  "C11-b": "missed by the first version of C11 (no second request for a chain during a schedule); caught after the Roland target lists other performances sharing samples, preferring cluster_top > 0",
  "C16-c": "missed by the first version of C16 (plain names, one partition); caught after the images got a file and a directory of different branches with the same raw name ending in '-'",
  "C19-b": "would have been missed (signals without silence); caught after adding impulse / burst-silence / silence-burst signals",
+ "C03-c": "missed by the first version of C03 (index times only with frames 0, 1, 74); caught after a sweep of all frame values 0..74 on one-track sheets",
+ "C04-c": "missed by the first version of C04 (every export went into a fresh directory); caught after a re-export scenario into a directory holding longer files of the same names",
+ "C05-c": "not a C05 matter on a first export; caught by C16 (history [export, export] on an image with an L/R pair)",
+ "C06-c": "missed by the first quick tier of C06 (CDDA targeted pool stopped at 3 siblings; AKAI/Roland lose the sample through pairing instead, which is C05's clause); caught after the CDDA pool got 4 siblings and collision-rich sequences are replayed unstrided",
+ "C09-c": "missed by the first version of C09 (cue files were always named *.cue); caught after cue sheets named XR.CUE / xm.cue.txt were added",
+ "C10-c": "missed by the first version of C10 (no blanks after a trailing separator); caught after those spellings were added",
+ "C19-c": "missed by the first version of C19 (reset/reuse was only tested on the small model filters); caught after presets are reused after reset_state() and after a flushed run",
+ "C20-c": "not visible to a single listing; caught by C16 after its AKAI leaf target got active loops (history [ls leaf, ls leaf])",
  "C08-a": "caught marginally (3 behaviours) at first; a 5-sector scattered chain was added to the exhaustive depth-2 configurations",
 }
 
